@@ -9,6 +9,7 @@ class FlatLine(Case):
     module = "ioos_qc.qartod"
     function = "flat_line_test"
     index_offsets = (0, -1, 1)
+    grid_limit = 150
     props = {
         "post.flag_by_window_range": ("C11",),
         "post.short_series_never_flagged": ("C11",),
